@@ -21,7 +21,15 @@ Model of
 * `breezy/bzr/conflicts.py: TextConflict._resolve`, `ContentsConflict._resolve`
   followed by `Conflict.cleanup` and the record removal of
   `breezy/conflicts.py: resolve`, as a step function on the per-file slot
-  (file, three helper files, conflict record, which name carries the file id).
+  (file, three helper files, conflict record, which name carries the file id);
+* WHERE all this goes: `_merge_names` (name and parent directory merged
+  independently with `_three_way`, `winner_idx`), `tt.final_name/final_parent`
+  feeding `_dump_conflicts` / `_conflict_file` (`name + "." + suffix`),
+  `cook_conflicts` (record under the final path; path conflict dropped beside a
+  contents conflict) and resolution BY PATH (`self.path + "." + winner_suffix`,
+  `associated_filenames`), for a file renamed / moved by either side or added by
+  both sides (absent from BASE): `mergeLoc`, `place`, `mergeFileOpt`,
+  `mergeEntry`, `Placed.view`, `resolvePlaced`.
 -/
 namespace BreezyVerif.C19
 
@@ -193,8 +201,18 @@ def joinLines (ls : List Line) : Bytes := ls.flatten
 
 /-! ### the per-file outcome of the tree merge -/
 
-/-- `textfile.check_text_lines` for texts shorter than its 1024-byte window: a NUL byte anywhere -/
-def isBinary (ls : List Line) : Bool := ls.any fun l => l.contains 0
+/-- `textfile.check_text_lines` (Rust `osutils::textfile::check_text_lines`), literally: the lines
+are scanned in order; a NUL in a scanned line ⇒ not text; scanning stops after the first line that
+does not fit into the 1024-byte window any more (that line itself is still scanned). -/
+def checkTextLines : Nat → List Line → Bool
+  | _, [] => true
+  | off, l :: ls =>
+    if l.contains 0 then false
+    else if off + l.length > 1024 then true
+    else checkTextLines (off + l.length) ls
+
+/-- `BinaryFile` is raised for these lines -/
+def isBinary (ls : List Line) : Bool := !checkTextLines 0 ls
 
 inductive Outcome where
   /-- no conflict: the file holds `content`; no helper files, no record -/
@@ -294,5 +312,170 @@ def resolveContents (w : Side) (s : Slot) : Slot :=
     | .nowhere => s1'
   -- cleanup + record removal
   { s2 with hBase := none, hOther := none, record := none }
+
+/-! ### placement: WHERE the file, the helper files and the record go
+
+The file being merged may sit at a different path in each of the three trees
+(renamed and / or moved by either side).  `_merge_names` merges the name and
+the parent directory as two independent attributes with `_three_way`
+(`winner_idx = {"this": 2, "other": 1, "conflict": 1}`: on a conflict OTHER's
+value is used and a path conflict is recorded); `text_merge` /
+`_do_merge_contents` then take `tt.final_name(trans_id)` /
+`tt.final_parent(trans_id)` for the helper files (`_conflict_file`:
+`name + "." + suffix` in the same directory) and `cook_conflicts` records the
+conflict under the final path.  Resolution works by PATH: `TextConflict._resolve`
+looks for `self.path + "." + winner_suffix`, `cleanup` deletes
+`self.path + suffix`.  The directory is an opaque identity (the file id of the
+parent directory), so directory renames do not matter here. -/
+
+abbrev Name := Bytes
+
+structure Loc where
+  parent : Nat
+  name : Name
+  deriving DecidableEq, Repr
+
+/-- `".BASE"` -/
+def sfxBase : Bytes := [46, 66, 65, 83, 69]
+/-- `".THIS"` -/
+def sfxThis : Bytes := [46, 84, 72, 73, 83]
+/-- `".OTHER"` -/
+def sfxOther : Bytes := [46, 79, 84, 72, 69, 82]
+
+def Loc.suffixed (l : Loc) (sfx : Bytes) : Loc := ⟨l.parent, l.name ++ sfx⟩
+
+/-- `names[winner_idx[winner]]` with `winner_idx = {"this": 2, "other": 1, "conflict": 1}` -/
+def pickWinner {α : Type} (w : C18.Winner) (other this : α) : α :=
+  match w with
+  | .this => this
+  | .other => other
+  | .conflict => other
+
+structure NameMerge where
+  final : Loc
+  /-- a `("path conflict", …)` raw conflict was appended -/
+  pathConflict : Bool
+  deriving DecidableEq, Repr
+
+/-- `_merge_names` for an entry present in THIS and OTHER (in BASE or — added by both sides — not):
+`tt.adjust_path(winning_name, winning_parent, trans_id)`; afterwards `final_name` / `final_parent`
+are these.  An entry absent from BASE has `None` for its BASE name and parent. -/
+def mergeLoc (base : Option Loc) (this other : Loc) : NameMerge :=
+  let wn := C18.threeWay (base.map (·.name)) (some other.name) (some this.name)
+  let wp := C18.threeWay (base.map (·.parent)) (some other.parent) (some this.parent)
+  ⟨⟨pickWinner wp other.parent this.parent, pickWinner wn other.name this.name⟩,
+   decide (wn = .conflict) || decide (wp = .conflict)⟩
+
+/-- what one merged entry leaves in the working tree: files (path ↦ content),
+the cooked content-level conflict record with its path, where the file id
+sits, and whether a path conflict is reported -/
+structure Placed where
+  files : List (Loc × Bytes)
+  record : Option (Kind × Loc)
+  idAt : Option Loc
+  pathConflict : Bool
+  deriving DecidableEq, Repr
+
+def optFile (l : Loc) : Option Bytes → List (Loc × Bytes)
+  | some c => [(l, c)]
+  | none => []
+
+/-- `text_merge` / `_do_merge_contents` + `_dump_conflicts` + `_conflict_file` + `cook_conflicts`
+for the final location `l`.  `hasBase = false`: the entry is not in BASE, `_dump_conflicts` skips
+the `.BASE` helper (`if path is not None`).  (`cook_conflicts` drops the path conflict of an entry
+that also has a contents conflict.) -/
+def place (l : Loc) (pc hasBase : Bool) : Outcome → Option Placed
+  | .clean c => some ⟨[(l, c)], none, some l, pc⟩
+  | .textConflict c b t o =>
+    some ⟨(l, c) :: optFile (l.suffixed sfxBase) (if hasBase then some b else none) ++
+            [(l.suffixed sfxThis, t), (l.suffixed sfxOther, o)],
+          some (.text, l), some l, pc⟩
+  | .contentsConflict b t o =>
+    some ⟨optFile (l.suffixed sfxBase) (if hasBase then some b else none) ++
+            [(l.suffixed sfxThis, t), (l.suffixed sfxOther, o)],
+          some (.contents, l), some (l.suffixed sfxOther), false⟩
+  | .error _ => none
+
+/-- `get_lines(tree, path)`: `[]` when the path is `None` -/
+def baseLinesOf : Option (List Line) → List Line
+  | some b => b
+  | none => []
+
+/-- `mergeFile` for an entry that may be absent from BASE (added by both sides): the content
+decision then sees `(None, None)` for BASE, which differs from both sides; the text merge runs
+with `get_lines(base_tree, None) = []`. -/
+def mergeFileOpt (o : Opts) (base : Option (List Line)) (this other : List Line) (regions : List Region) :
+    Outcome :=
+  match C18.threeWay (base.map joinLines) (some (joinLines other)) (some (joinLines this)) with
+  | .this => .clean (joinLines this)
+  | .other => .clean (joinLines other)
+  | .conflict =>
+    if isBinary (baseLinesOf base) || isBinary other || isBinary this then
+      .contentsConflict (joinLines (baseLinesOf base)) (joinLines this) (joinLines other)
+    else
+      match textMerge o (baseLinesOf base) this other regions with
+      | .error e => .error e
+      | .ok (lines, false) => .clean (joinLines lines)
+      | .ok (lines, true) =>
+        .textConflict (joinLines lines) (joinLines (baseLinesOf base)) (joinLines this) (joinLines other)
+
+/-- one entry of the tree merge: name merge, then content merge at the merged location.
+`base = none`: the file was added by both sides (same file id / same path). -/
+def mergeEntry (o : Opts) (base : Option (Loc × List Line)) (tl ol : Loc) (this other : List Line)
+    (regions : List Region) : Option Placed :=
+  let nm := mergeLoc (base.map (·.1)) tl ol
+  place nm.final nm.pathConflict base.isSome (mergeFileOpt o (base.map (·.2)) this other regions)
+
+def lookupLoc (l : Loc) : List (Loc × Bytes) → Option Bytes
+  | [] => none
+  | (k, v) :: t => if k = l then some v else lookupLoc l t
+
+def Placed.get (p : Placed) (l : Loc) : Option Bytes := lookupLoc l p.files
+
+/-- which of the four names of the conflict at `l` carries the file id -/
+def Placed.idLoc (p : Placed) (l : Loc) : IdLoc :=
+  match p.idAt with
+  | none => .nowhere
+  | some x =>
+    if x = l then .item
+    else if x = l.suffixed sfxThis then .hThis
+    else if x = l.suffixed sfxOther then .hOther
+    else if x = l.suffixed sfxBase then .hBase
+    else .nowhere
+
+/-- what a conflict object with `path = l` sees of the tree: `l`, `l.BASE`, `l.THIS`, `l.OTHER` -/
+def Placed.view (p : Placed) (l : Loc) : Slot :=
+  ⟨p.get l, p.get (l.suffixed sfxBase), p.get (l.suffixed sfxThis), p.get (l.suffixed sfxOther),
+   (match p.record with
+    | some (k, l') => if l' = l then some k else none
+    | none => none),
+   p.idLoc l⟩
+
+/-- write a slot back at `l`; files under other names are not touched -/
+def Placed.putSlot (p : Placed) (l : Loc) (s : Slot) : Placed :=
+  let rest := p.files.filter fun f =>
+    !(decide (f.1 = l) || decide (f.1 = l.suffixed sfxBase) || decide (f.1 = l.suffixed sfxThis)
+      || decide (f.1 = l.suffixed sfxOther))
+  ⟨optFile l s.file ++ optFile (l.suffixed sfxBase) s.hBase ++ optFile (l.suffixed sfxThis) s.hThis
+      ++ optFile (l.suffixed sfxOther) s.hOther ++ rest,
+   s.record.map fun k => (k, l),
+   (match s.idOn with
+    | .item => some l
+    | .hThis => some (l.suffixed sfxThis)
+    | .hOther => some (l.suffixed sfxOther)
+    | .hBase => some (l.suffixed sfxBase)
+    | .nowhere => p.idAt),
+   p.pathConflict⟩
+
+/-- `breezy.conflicts.resolve(tree, [record path], action=take_this|take_other)`:
+the conflict object resolves by its recorded path -/
+def resolvePlaced (w : Side) (p : Placed) : Except Err Placed :=
+  match p.record with
+  | none => .ok p
+  | some (.text, l) =>
+    match resolveText w (p.view l) with
+    | .error e => .error e
+    | .ok s => .ok (p.putSlot l s)
+  | some (.contents, l) => .ok (p.putSlot l (resolveContents w (p.view l)))
 
 end BreezyVerif.C19
